@@ -336,6 +336,28 @@ Fixpoint names (t : tmpl) : list name :=
   | TNode _ fs => flat_map (fun ft => names (snd ft)) fs
   end.
 
+(* names occur only under plain list items, node fields and or-alternatives (not under ? * +
+   items, not in set templates) *)
+Fixpoint quant_nowild (t : tmpl) : bool :=
+  match t with
+  | TAny | TType _ | TAtom _ | TEll => true
+  | TOr ts => forallb quant_nowild ts
+  | TSet ts => forallb nowild ts
+  | TList its =>
+      forallb (fun i => match i with
+                        | One t' => quant_nowild t'
+                        | Opt t' | Star t' | Plus t' => nowild t'
+                        end) its
+  | TWild _ _ t' => nowild t'
+  | TNode _ fs => forallb (fun ft => quant_nowild (snd ft)) fs
+  end.
+
+Fixpoint nodupb (l : list name) : bool :=
+  match l with [] => true | n :: l' => negb (existsb (Nat.eqb n) l') && nodupb l' end.
+
+(* linear: every name occurs once, only in unquantified positions *)
+Definition linear (t : tmpl) : bool := wf_tmpl t && quant_nowild t && nodupb (names t).
+
 (* ---------------------------------------------------------------------------------------------- *)
 (* embedding of a value as the template it compiles to (wildcard-free pattern) *)
 
@@ -344,6 +366,17 @@ Fixpoint embed (v : value) : tmpl :=
   | VT _ tg fs => TNode tg (map (fun fv => (fst fv, embed (snd fv))) fs)
   | VL _ l => TList (map (fun a => One (embed a)) l)
   | VA _ a => TAtom a
+  end.
+
+(* a node's fields are a Python dict: field names are unique *)
+Fixpoint nodups (l : list string) : bool :=
+  match l with [] => true | s :: l' => negb (existsb (String.eqb s) l') && nodups l' end.
+
+Fixpoint wf_value (v : value) : bool :=
+  match v with
+  | VT _ _ fs => nodups (map fst fs) && forallb (fun fv => wf_value (snd fv)) fs
+  | VL _ l => forallb wf_value l
+  | VA _ _ => true
   end.
 
 (* ---------------------------------------------------------------------------------------------- *)
